@@ -1363,6 +1363,13 @@ class Do(BeginStatement):
                 if isinstance(self.parent, Do) and label == self.parent.endlabel:
                     # the same item label may be used for different block ends
                     self.put_item(item)
+                last = self
+                while isinstance(last, Do) and last.endlabel == label and last.content:
+                    last = last.content[-1]
+                if last is not self and last.item is item:
+                    # The statement already ends (and is held by) the
+                    # innermost of the loops that share the label.
+                    return True
         return BeginStatement.process_subitem(self, item) or result
 
     def get_classes(self):
